@@ -41,7 +41,7 @@ func New(ctx context.Context, clock clock.IClock, definition schema.TimerEventDe
 			return
 		}
 		go dateTimeTimer(ctx, clock, t, func() {
-			ch <- definition
+			deliver(ctx, ch, definition)
 			close(ch)
 		})
 	case !timeDatePresent && timeCyclePresent && !timeDurationPresent:
@@ -56,7 +56,7 @@ func New(ctx context.Context, clock clock.IClock, definition schema.TimerEventDe
 			repeatingInterval.Interval.Start = &now
 		}
 		go recurringTimer(ctx, clock, repeatingInterval, func() {
-			ch <- definition
+			deliver(ctx, ch, definition)
 		}, func() {
 			close(ch)
 		})
@@ -68,7 +68,7 @@ func New(ctx context.Context, clock clock.IClock, definition schema.TimerEventDe
 			return
 		}
 		go dateTimeTimer(ctx, clock, clock.Now().Add(duration.Duration), func() {
-			ch <- definition
+			deliver(ctx, ch, definition)
 			close(ch)
 		})
 	default:
@@ -81,13 +81,26 @@ func New(ctx context.Context, clock clock.IClock, definition schema.TimerEventDe
 	return
 }
 
+// deliver hands a firing to the timer's reader unless the context is done: the
+// reader stops reading then, and an unconditional send would leave the timer's
+// goroutine blocked forever.
+func deliver(ctx context.Context, ch chan schema.TimerEventDefinition, definition schema.TimerEventDefinition) {
+	select {
+	case ch <- definition:
+	case <-ctx.Done():
+	}
+}
+
 func recurringTimer(ctx context.Context, clock clock.IClock, interval iso8601.RepeatingInterval, f func(), final func()) {
 	if interval.Interval.Start == nil {
 		panic("shouldn't happen, has to be always set, explicitly or by timer.New")
 	}
 	ch := make(chan struct{})
 	go dateTimeTimer(ctx, clock, *interval.Interval.Start, func() {
-		ch <- struct{}{}
+		select {
+		case ch <- struct{}{}:
+		case <-ctx.Done():
+		}
 	})
 	select {
 	case <-ctx.Done():
